@@ -9,4 +9,10 @@ CHECKS = {
        'node ordering/end-point membership, exactness of weights (degree < order) and of Q/S (degree < M), zero padding, cumsum/diff relations, delta_m and '
        'affine covariance are judged against extended-precision arithmetic. Exploration: held on everything generated, no absence proof.',
   note='Trusted: mpmath arithmetic; tolerance model C*eps*Lebesgue(M)*(1+max|t|/h) (calibrated with >100x margin). Known finding F2 (qmat end-point snapping) is excluded by a matcher computed from reference nodes only.'),
+ 'C18': dict(
+  technique='property-based testing: exhaustive stencil grid + Hypothesis-generated offsets/sizes/boundary settings against exact rational (fractions) weights, independently built expected matrices and polynomial reproduction',
+  text='All derivative x order x layout stencils are enumerated and custom offset sets generated; weights are compared with exact rational Vandermonde solutions; '
+       'periodic matrices against wrap-modulo-size construction, Dirichlet/Neumann matrices and boundary vectors against an independent closure construction and '
+       'A p + b = p^(d) for all monomials within the closure exactness degree, 1-3 D as Kronecker sums. Exploration level.',
+  note='Trusted: fractions arithmetic; tolerance 1e-9..1e-8 relative to row magnitude. In dim>=2 only one constant boundary value per side can be represented by the API and is what is tested. Two defects found and fixed (F0, F13).'),
 }
